@@ -23,9 +23,9 @@ RULE_TEXT = (
     "latency racing initial notifications of further subscriptions of the same endpoint; non-trivial = notifications judged)"
 )
 PROBES = ["wraps_crossed", "destinations", "empty_sends", "messages_judged", "second_wrap", "more_than_64_destinations"]
-HEAVY = {"quick": 16, "thorough": 1600}
-RUNS = {"quick": 16 + 800, "thorough": 1600 + 80000}
-SELFTEST_N = 2  # each plan is 130 000+ transmissions
+HEAVY_EVERY = 51
+RUNS = {"quick": 16 * HEAVY_EVERY, "thorough": 1600 * HEAVY_EVERY}
+SELFTEST_N = 6  # plan 0 is a soak run of 130 000+ transmissions, the next five are cheap
 OFFER = ["offer", 0x1111, 1, 1, 0, 3]
 PEER_HOSTS = ["10.0.0.11", "10.0.0.12", "10.0.0.13", "10.0.0.14"]
 
@@ -183,10 +183,11 @@ def gen_notify_race(seed, idx):
 
 
 def gen(seed, idx, tier):
-    heavy = HEAVY.get(tier, 16)
-    if idx >= heavy:
-        j = idx - heavy
+    # every 51st plan is one of the long soak runs (51 and the 16 workers are coprime: they spread evenly)
+    if idx % HEAVY_EVERY:
+        j = idx - idx // HEAVY_EVERY - 1
         return gen_many(seed, j // 2) if j % 2 == 0 else gen_notify_race(seed, j // 2)
+    idx //= HEAVY_EVERY
     k = idx % 8
     if k == 3:
         return gen_traffic(seed, idx // 4)
